@@ -1,0 +1,198 @@
+//go:build verif
+
+package phylip
+
+// Contracts for the verification machinery in /verif (govc): comment-only file,
+// compiled (to nothing) only under the build tag "verif".
+//
+// Ghost state of the input: gfield(r, rem) = runes left in the bufio.Reader r
+// (assumed contract of ReadRune/UnreadRune in /verif/specs/externs.spec).
+// Progress measure of the parser: M = 2*rem + buf.n  (a token taken from the
+// one-token push-back buffer lowers it by 1, a token read from the input by >= 2).
+
+//@ pure func phrem(s *Scanner) int = gfield(s.r, rem)
+//@ pure func phsok(s *Scanner) bool = s != nil && s.r != nil && gfield(s.r, rem) >= 0
+
+// constructors: the parser starts in a state that satisfies the precondition of Parse
+//@ func NewScanner
+//@   props C03
+//@   ensures phsok(result) && fresh(result)
+//@   modifies nothing
+
+//@ func (*Scanner).read
+//@   props C03
+//@   requires phsok(s)
+//@   ensures phsok(s) && s.r == old(s.r)
+//@   ensures phrem(s) == old(phrem(s)) || (phrem(s) == old(phrem(s)) - 1 && gfield(s.r, unread) == 1)
+//@   ensures phrem(s) == old(phrem(s)) ==> result == 0 && gfield(s.r, unread) == 0
+//@   ensures old(phrem(s)) > 0 ==> phrem(s) == old(phrem(s)) - 1
+//@   modifies gfield(s.r, rem), gfield(s.r, unread)
+
+//@ func (*Scanner).unread
+//@   props C03
+//@   requires phsok(s)
+//@   ensures phsok(s) && s.r == old(s.r) && gfield(s.r, unread) == 0
+//@   ensures phrem(s) == old(phrem(s)) + (old(gfield(s.r, unread)) == 1 ? 1 : 0)
+//@   modifies gfield(s.r, rem), gfield(s.r, unread)
+
+// the whitespace and identifier scanners are entered after an unread of the rune just read: they consume at least that rune
+//@ func (*Scanner).scanWhitespace
+//@   props C03
+//@   requires phsok(s) && phrem(s) > 0
+//@   ensures phsok(s) && s.r == old(s.r) && phrem(s) < old(phrem(s)) && tok == WS
+//@   modifies gfield(s.r, rem), gfield(s.r, unread), gf(buflen), gfa(bufdata)
+//@   loop 1
+//@     invariant phsok(s) && s.r == old(s.r) && phrem(s) < old(phrem(s))
+//@     decreases phrem(s)
+
+//@ func (*Scanner).scanIdent
+//@   props C03
+//@   requires phsok(s) && phrem(s) > 0
+//@   ensures phsok(s) && s.r == old(s.r) && phrem(s) < old(phrem(s)) && tok == IDENTIFIER && len(lit) >= 1
+//@   modifies gfield(s.r, rem), gfield(s.r, unread), gf(buflen), gfa(bufdata)
+//@   loop 1
+//@     invariant phsok(s) && s.r == old(s.r) && phrem(s) < old(phrem(s)) && gf(buflen, buf) >= 1
+//@     decreases phrem(s)
+
+// Read (strict mode: the 10-rune name field): at most ten runes are consumed; the result is never empty
+//@ func (*Scanner).Read
+//@   props C03
+//@   requires phsok(s)
+//@   ensures phsok(s) && s.r == old(s.r) && phrem(s) <= old(phrem(s)) && phrem(s) >= old(phrem(s)) - 10
+//@   ensures len(result) >= 1
+//@   modifies gfield(s.r, rem), gfield(s.r, unread), gf(buflen), gfa(bufdata)
+//@   loop 1
+//@     invariant phsok(s) && s.r == old(s.r) && 0 <= i && i <= 10 && phrem(s) <= old(phrem(s)) && phrem(s) >= old(phrem(s)) - i && gf(buflen, buf) >= i
+//@     decreases 10 - i
+
+// Scan: either the end-of-file token, or at least one rune has been consumed
+//@ func (*Scanner).Scan
+//@   props C03
+//@   requires phsok(s)
+//@   ensures phsok(s) && s.r == old(s.r) && phrem(s) <= old(phrem(s))
+//@   ensures tok == EOF || phrem(s) < old(phrem(s))
+//@   ensures tok == EOF || tok == WS || tok == IDENTIFIER || tok == ENDOFLINE || tok == NUMERIC || tok == ILLEGAL
+//@   ensures tok == IDENTIFIER || tok == NUMERIC ==> len(lit) >= 1
+//@   modifies gfield(s.r, rem), gfield(s.r, unread), gf(buflen), gfa(bufdata)
+
+// ---- parser ----
+
+//@ pure func phpok(p *Parser) bool = p != nil && phsok(p.s) && (p.buf.n == 0 || p.buf.n == 1)
+//@ pure func phM(p *Parser) int = 2 * phrem(p.s) + p.buf.n
+
+//@ func NewParser
+//@   props C03
+//@   ensures phpok(result) && fresh(result) && result.buf.n == 0 && result.strict == strict && result.ignoreidentical == align.IGNORE_NONE && result.alphabet == align.BOTH
+//@   modifies nothing
+
+// scan: the end-of-file token, or the progress measure strictly decreases; the token returned is the one kept in the push-back buffer
+//@ func (*Parser).scan
+//@   props C03
+//@   requires phpok(p)
+//@   ensures phpok(p) && p.s == old(p.s) && p.s.r == old(p.s.r) && phM(p) <= old(phM(p)) && p.buf.n == 0 && p.buf.tok == tok
+//@   ensures tok == EOF || phM(p) < old(phM(p))
+//@   ensures old(p.buf.n) != 0 ==> tok == old(p.buf.tok) && phrem(p.s) == old(phrem(p.s))
+//@   ensures old(p.buf.n) == 0 ==> tok == EOF || phrem(p.s) < old(phrem(p.s))
+//@   modifies p.buf.n, p.buf.tok, p.buf.lit, gfield(p.s.r, rem), gfield(p.s.r, unread), gf(buflen), gfa(bufdata)
+
+//@ func (*Parser).unscan
+//@   props C03
+//@   requires phpok(p)
+//@   ensures phpok(p) && p.buf.n == 1 && phrem(p.s) == old(phrem(p.s)) && p.s == old(p.s) && p.s.r == old(p.s.r)
+//@   modifies p.buf.n
+
+// scanWithEOL: collapses a run of end-of-line tokens into one and pushes the first other token back.
+// It never increases the measure; it strictly decreases it unless the push-back buffer held an end-of-line token on entry
+//@ func (*Parser).scanWithEOL
+//@   props C03
+//@   requires phpok(p)
+//@   ensures phpok(p) && p.s == old(p.s) && p.s.r == old(p.s.r) && phM(p) <= old(phM(p))
+//@   ensures tok == ENDOFLINE ==> p.buf.n == 1 && p.buf.tok != ENDOFLINE
+//@   ensures tok != ENDOFLINE ==> p.buf.n == 0 && p.buf.tok == tok
+//@   ensures old(p.buf.n) == 0 || old(p.buf.tok) != ENDOFLINE ==> tok == EOF || phM(p) < old(phM(p))
+//@   modifies p.buf.n, p.buf.tok, p.buf.lit, gfield(p.s.r, rem), gfield(p.s.r, unread), gf(buflen), gfa(bufdata)
+//@   loop 1
+//@     invariant phpok(p) && p.s == old(p.s) && p.s.r == old(p.s.r) && p.buf.n == 0 && p.buf.tok == tok && prevtok == ENDOFLINE
+//@     invariant phM(p) <= old(phM(p)) - 1
+//@     invariant old(p.buf.n) == 0 ==> phM(p) <= old(phM(p)) - 2
+//@     decreases (tok == ENDOFLINE ? phM(p) + 1 : 0)
+
+// Parse: terminates; either an error, or the end-of-stream marker (nil, nil), or a well-formed non-empty alignment
+// whose dimensions are those declared in the header (hint clause: nbseq, lenseq are locals of Parse).
+// `makelimit`: every make([]T, n) must prove n * sizeof(T) <= 2^48 (the runtime panics beyond).
+//@ pure func phinv(p *Parser) bool = phpok(p) && p.s == old(p.s) && p.s.r == old(p.s.r)
+//@ func (*Parser).Parse
+//@   props C03
+//@   makelimit
+//@   requires phpok(p)
+//@   ensures phpok(p) && p.s == old(p.s) && p.s.r == old(p.s.r) && phM(p) <= old(phM(p))
+//@   ensures err == nil && al != nil ==> wfa(al) && nrows(al) >= 1 && al.length >= 1
+//@   ensures err == nil && al != nil ==> phM(p) < old(phM(p))
+//@   hint err == nil && al != nil ==> al.length == lenseq && nrows(al) <= nbseq && (p.ignoreidentical == align.IGNORE_NONE ==> nrows(al) == nbseq)
+//@   modifies p.buf.n, p.buf.tok, p.buf.lit, gfield(rem), gfield(unread), gf(buflen), gfa(bufdata), field(align.seqbag.seqs), field(align.align.length), mem(*align.seq), maps(map[string]*align.seq), field(align.seqbag.alphabet), field(align.seqbag.ignoreidentical)
+// 1: skip of leading blanks and empty lines
+//@   loop 1
+//@     invariant phinv(p) && phM(p) <= old(phM(p)) && err == nil
+//@     invariant p.buf.n == 0 || p.buf.tok != ENDOFLINE
+//@     invariant tok != WS && tok != ENDOFLINE ==> tok == EOF || phM(p) < old(phM(p))
+//@     decreases (tok == WS || tok == ENDOFLINE ? phM(p) + 1 : 0)
+// 2: first block, one name + sequence per row
+//@   loop 2
+//@     invariant phinv(p) && phM(p) <= old(phM(p)) - 4 && err == nil && p.buf.n == 0
+// (rows are appended as they are read; before the fix of defect 3 the two slices were pre-allocated with the
+//  declared count and these two lines read `len(names) == nbseq && len(seqs) == nbseq`)
+//@     invariant 0 <= i && i <= nbseq && nbseq >= 1 && len(names) == i && len(seqs) == i && fresh(names) && fresh(seqs)
+//@     invariant forall j :: 0 <= j && j < i ==> seqs[j] != nil
+// every row read has consumed input: the number of iterations is bounded by the input, not by the declared count
+//@     invariant phM(p) + i <= old(phM(p)) - 4
+//@     decreases nbseq - i
+// 3: tokens of one row of the first block
+//@   loop 3
+//@     invariant phinv(p) && phM(p) <= old(phM(p)) - 4 && err == nil && p.buf.n == 0
+//@     invariant 0 <= i && i < nbseq && len(names) == i + 1 && len(seqs) == i + 1 && fresh(names) && fresh(seqs)
+//@     invariant forall j :: 0 <= j && j <= i ==> seqs[j] != nil
+//@     invariant (tok == EOF ? phM(p) + i : phM(p) + i + 1) <= old(phM(p)) - 4
+//@     decreases (tok == ENDOFLINE ? 0 : (tok == EOF ? 1 : phM(p) + 2))
+// 4: the following blocks (interleaved format), until the declared length is reached
+//@   loop 4
+//@     invariant phinv(p) && phM(p) <= old(phM(p)) - 3 && err == nil
+//@     invariant nbseq >= 1 && len(names) == nbseq && len(seqs) == nbseq
+//@     invariant forall j :: 0 <= j && j < nbseq ==> seqs[j] != nil
+//@     decreases phM(p)
+// 5: rows of one block ($variant4 = value of the measure at the head of loop 4)
+//@   loop 5
+//@     invariant phinv(p) && phM(p) <= old(phM(p)) - 3 && err == nil
+//@     invariant 0 <= i && i <= nbseq && nbseq >= 1 && len(names) == nbseq && len(seqs) == nbseq
+//@     invariant forall j :: 0 <= j && j < nbseq ==> seqs[j] != nil
+//@     invariant phM(p) <= $variant4 && (i >= 1 ==> phM(p) < $variant4) && phM(p) + i <= $variant4
+//@     decreases nbseq - i
+// 6: tokens of one row
+//@   loop 6
+//@     invariant phinv(p) && phM(p) <= old(phM(p)) - 3 && err == nil
+//@     invariant 0 <= i && i < nbseq && len(names) == nbseq && len(seqs) == nbseq
+//@     invariant forall j :: 0 <= j && j < nbseq ==> seqs[j] != nil
+//@     invariant phM(p) < $variant4 && (tok == EOF ? phM(p) + i : phM(p) + i + 1) <= $variant4
+//@     decreases (tok == ENDOFLINE ? 0 : (tok == EOF ? 1 : phM(p) + 2))
+// 7: the rows are handed to the alignment; every row has the declared length
+//@   loop 7
+//@     invariant phinv(p) && phM(p) <= old(phM(p)) - 3 && err == nil
+//@     invariant nbseq >= 1 && len(names) == nbseq && len(seqs) == nbseq
+//@     invariant forall j :: 0 <= j && j < nbseq ==> seqs[j] != nil
+//@     invariant al != nil && fresh(al) && isalign(al) && wfa(al) && nrows(al) <= $i
+//@     invariant $i >= 1 ==> nrows(al) >= 1 && al.length == lenseq
+//@     invariant p.ignoreidentical == align.IGNORE_NONE ==> al.ignoreidentical == align.IGNORE_NONE && nrows(al) == $i
+//@     decreases nbseq - $i
+
+// ParseMultiple: terminates on every stream (every successful Parse lowers the measure), sends only
+// well-formed non-empty alignments, and closes the channel exactly once, at the end or at the first error.
+// ghost(sent) / ghost(closed): counters of the channel sends / close calls of the engine's channel model.
+//@ func (*Parser).ParseMultiple
+//@   props C03
+//@   requires phpok(p) && aligns != nil
+//@   ensures ghost(closed) == old(ghost(closed)) + 1
+//@   ensures phpok(p)
+//@   modifies aligns.Err, p.buf.n, p.buf.tok, p.buf.lit, gfield(rem), gfield(unread), gf(buflen), gfa(bufdata), field(align.seqbag.seqs), field(align.align.length), mem(*align.seq), maps(map[string]*align.seq), field(align.seqbag.alphabet), field(align.seqbag.ignoreidentical)
+//@   loop 1
+//@     invariant phpok(p) && aligns != nil && ghost(closed) == old(ghost(closed))
+//@     invariant err == nil && al != nil ==> wfa(al) && nrows(al) >= 1 && al.length >= 1
+//@     decreases (err == nil && al != nil ? phM(p) + 1 : 0)
